@@ -211,7 +211,7 @@ def np_canary(n=2):
 FN_JX = "linalg_utils.modified_cholesky"
 
 
-def jax_exact(n, rank=None, perm=None, deriv=False, _scale=1):
+def jax_exact(n, rank=None, perm=None, deriv=False, _scale=1, tie=False):
     """C17.jax.exact[n,rank,perm]: with as many vectors as the rank, sum_g L_g L_g^T == A identically.
 
     Every symmetric PSD matrix of rank r whose pivots are taken in the order perm is A = P B B^T P^T with B (n x r) lower
@@ -243,6 +243,27 @@ def jax_exact(n, rank=None, perm=None, deriv=False, _scale=1):
             else:
                 Bx[i, j] = 0.25 * Bx[i, j] / (1 + abs(Bx[i, j]))
             inp.point[names[i, j]] = complex(Bx[i, j])
+    if tie is not False and tie is not None:
+        # inputs ON a tie surface (repeated pivots): the residual diagonals at step k tie between the pivots k and k+1:
+        # B[k,k] = 5t, B[k+1,k] = 3t, B[k+1,k+1] = 4t  (25 t^2 = 9 t^2 + 16 t^2); argmax returns the FIRST maximum, so perm[k] < perm[k+1]
+        k = 0 if tie is True else int(tie)
+        if r < k + 2 or perm[k] > perm[k + 1]:
+            raise Unsupported("tie family needs rank >= k + 2 and perm[k] < perm[k+1]")
+        t_s, t_x = Bs[k, k], 2.0 / (k + 1)
+        Bs[k, k], Bs[k + 1, k], Bs[k + 1, k + 1] = t_s * 5, t_s * 3, t_s * 4
+        Bx[k, k], Bx[k + 1, k], Bx[k + 1, k + 1] = 5 * t_x, 3 * t_x, 4 * t_x
+        inp.point[names[k, k]] = complex(t_x)
+        for i in range(n):
+            for j in range(min(i + 1, r)):
+                if i < k:
+                    Bx[i, j] = 40.0 * (k - i) if i == j else 0.1 * Bx[i, j]
+                elif i > k + 1:
+                    Bx[i, j] = (1.0 + 0.5 * (n - i)) / (k + 1) if i == j else 0.05 * Bx[i, j]
+                elif i == k and j < k or i == k + 1 and j < k:
+                    Bx[i, j] = 0.1 * Bx[i, j]
+                else:
+                    continue
+                inp.point[names[i, j]] = complex(Bx[i, j])
     diag_syms = {}
     for j in range(r):
         diag_syms[j] = Bs[j, j]
@@ -271,7 +292,27 @@ def jax_exact(n, rank=None, perm=None, deriv=False, _scale=1):
                 got = v[j] if isinstance(v[j], Fr) else (sp.const(float(v[j])) if not isinstance(v[j], NonFin) else None)
                 ok = ok and got is not None and (got - want).iszero()
         pivot_rule.append(bool(ok))
+        last_argmax["v"], last_argmax["k"] = v, k
         return np.asarray(perm[k], dtype=np.dtype(e.outvars[0].aval.dtype))
+
+    last_argmax = {}
+
+    def h_reduce_max(it, e, ins):
+        # max over the vector that the preceding argmax was taken of: under the path condition it is the entry at that pivot
+        v = ins[0]
+        if not (isinstance(v, np.ndarray) and v.dtype == object) or "v" not in last_argmax:
+            return None
+        w, k = last_argmax["v"], last_argmax["k"]
+        if v.shape != w.shape or tuple(e.params.get("axes", ())) != (0,):
+            raise Unsupported("reduce_max of a symbolic array that is not the argmax operand")
+        for a_, b_ in zip(v.reshape(-1), w.reshape(-1)):
+            if a_ is b_:
+                continue
+            if isinstance(a_, NonFin) or isinstance(b_, NonFin) or not (a_ - b_).iszero():
+                raise Unsupported("reduce_max of a symbolic array that is not the argmax operand")
+        out = np.empty((), dtype=object)
+        out[()] = v[perm[k]]
+        return out
 
     def _sos(x):
         return isinstance(x, Fr) and not x.D and all(all(ex % 2 == 0 for ex in m) and (c.y == 0 and c.x > 0) for m, c in x.n.terms())
@@ -317,11 +358,11 @@ def jax_exact(n, rank=None, perm=None, deriv=False, _scale=1):
         return out
 
     f = lambda m: lu.modified_cholesky(m, 0, r)
-    tag = f"[n={n},rank={r},pivots={'-'.join(map(str, perm[:r]))}]"
+    tag = f"[n={n},rank={r},pivots={'-'.join(map(str, perm[:r]))}{'' if tie is False or tie is None else ',tie@' + str(0 if tie is True else int(tie))}]"
     if deriv:
-        return _jax_deriv(n, r, perm, inp, sp, As, Ax, f, tag, calls, dict(argmax=h_argmax, abs=h_abs, pow=h_pow, ge=h_ge), t0)
+        return _jax_deriv(n, r, perm, inp, sp, As, Ax, f, tag, calls, dict(argmax=h_argmax, abs=h_abs, pow=h_pow, ge=h_ge, reduce_max=h_reduce_max), t0)
     name = "C17.jax.exact" + tag
-    out, it = evaluate(sp, f, (As,), (jnp.asarray(Ax),), prim_hook={"argmax": h_argmax, "abs": h_abs, "pow": h_pow})
+    out, it = evaluate(sp, f, (As,), (jnp.asarray(Ax),), prim_hook={"argmax": h_argmax, "abs": h_abs, "pow": h_pow, "reduce_max": h_reduce_max})
     L = np.asarray(out, dtype=object)
     G = L.T.dot(L)
     o = H.identity(name, G, As * _scale, functions=[FN_JX], inputs=inp, t0=t0,
